@@ -99,3 +99,48 @@ package replica
 //@   ensures[a_follower_that_lost_its_log_restarts_at_the_first_unacknowledged_position] (result && calls(r.stateMgr.GetLiveNode) == old(calls(r.stateMgr.GetLiveNode)) + 1 && calls(r.cliFct.CreateReplicaServiceClient) == old(calls(r.cliFct.CreateReplicaServiceClient)) + 1 && r.replicaCli != nil && r.replicaCli.resets == 1) ==> r.replicaCli.fNext == queue.CGack(r.channel.ConsumerGroup) + 1
 //@   ensures rrOK(r)
 //@ end
+
+//@ # ---- local replication into the storage engine (C07) -----------------------------------------------------
+//@ # ghost view of the data family: applied = last committed sequence per leader, writes = number of WriteRows
+//@ # calls so far, writesAtCommit = value of writes when the last commit was made
+//@ ghost field github.com/lindb/lindb/tsdb.DataFamily.applied map[int32]int64
+//@ ghost field github.com/lindb/lindb/tsdb.DataFamily.writes int
+//@ ghost field github.com/lindb/lindb/tsdb.DataFamily.writesAtCommit int
+//@ func github.com/lindb/lindb/tsdb.DataFamily.ValidateSequence
+//@   norefine
+//@   modifies nothing
+//@   ensures result == (seq > self.applied[leader])
+//@ end
+//@ func github.com/lindb/lindb/tsdb.DataFamily.WriteRows
+//@   modifies self.writes
+//@   ensures self.writes == old(self.writes) + 1
+//@ end
+//@ func github.com/lindb/lindb/tsdb.DataFamily.CommitSequence
+//@   norefine
+//@   modifies self.applied, self.writesAtCommit
+//@   ensures self.applied == store(old(self.applied), leader, seq) && self.writesAtCommit == self.writes
+//@ end
+//@ func github.com/lindb/lindb/pkg/compress.Reader.Uncompress
+//@   norefine
+//@   modifies nothing
+//@ end
+//@ func github.com/lindb/lindb/series/metric.StorageBatchRows.UnmarshalRows
+//@   assume
+//@   modifies br.rows, br.appendIndex, any(*metric.StorageRow).MemSeriesID
+//@   ensures br.appendIndex >= 0 && br.appendIndex <= len(br.rows)
+//@ end
+//@ stable localReplicator.family
+//@ stable localReplicator.reader
+//@ stable localReplicator.batchRows
+//@ stable localReplicator.statistics
+//@ stable localReplicator.logger
+//@ stable localReplicator.leader
+//@ func localReplicator.Replica
+//@   prop C07
+//@   requires r.family != nil && r.reader != nil && r.batchRows != nil && r.statistics != nil && r.logger != nil && r.channel != nil && r.channel.ConsumerGroup != nil && typeis(r.channel.ConsumerGroup, "*queue.consumerGroup") && cast(r.channel.ConsumerGroup, "*queue.consumerGroup").consumedSeq != nil && cast(r.channel.ConsumerGroup, "*queue.consumerGroup").acknowledgedSeq != nil
+//@   modifies *
+//@   ensures[an_entry_at_or_below_the_applied_sequence_is_never_applied_again] sequence <= old(r.family.applied[r.leader]) ==> (r.family.writes == old(r.family.writes) && r.family.applied == old(r.family.applied))
+//@   ensures[the_applied_sequence_advances_to_this_entry] sequence > old(r.family.applied[r.leader]) ==> r.family.applied == store(old(r.family.applied), r.leader, sequence)
+//@   ensures[the_applied_sequence_advances_only_after_the_rows_are_written] sequence > old(r.family.applied[r.leader]) ==> r.family.writesAtCommit == r.family.writes
+//@   ensures[rows_are_written_at_most_once] r.family.writes == old(r.family.writes) || r.family.writes == old(r.family.writes) + 1
+//@ end
